@@ -6,7 +6,8 @@ def loop1 (live : Nat → Bool) : Nat → Nat → Nat → Option (Nat × Nat)
   | 0, _, _ => none
   | fuel + 1, counter, chanid =>
     if (live chanid) then
-      let chanid := ((chanid + 1) % 16777216)
+      let counter := ((counter + 1) % 16777216)
+      let chanid := counter
       loop1 live fuel counter chanid
     else some (counter, chanid)
 
@@ -14,10 +15,10 @@ def loop1 (live : Nat → Bool) : Nat → Nat → Nat → Option (Nat × Nat)
 def next_channel (live : Nat → Bool) (fuel counter : Nat) : Option (Nat × Nat) :=
   let chanid := 0
   let chanid := counter
-  let counter := ((chanid + 1) % 16777216)
   match loop1 live fuel counter chanid with
   | none => none
   | some (counter, chanid) =>
+    let counter := ((counter + 1) % 16777216)
     some (counter, chanid)
 
 end PV.Generated.C23
